@@ -18,6 +18,14 @@ class Unknown(AnalysisError):
     pass
 
 
+class EvalRaised(Exception):
+    "the evaluated fragment itself raises (an outcome of the abstract run, not a limitation of the evaluator)"
+
+    def __init__(self, exc_name: str, detail: str = "") -> None:
+        super().__init__(f"{exc_name}: {detail}")
+        self.exc_name = exc_name
+
+
 class Obj:
     "abstract instance: class name (qualname), attribute dict; hashable by value"
 
@@ -230,7 +238,15 @@ class Evaluator:
             return v[s]
         k = self.ev(n.slice, env)
         try:
+            if isinstance(v, Obj) and "__getitem__" in self.hooks:
+                return self.hooks["__getitem__"](v, k)
             return v[k]
+        except (IndexError, KeyError) as e:
+            if isinstance(v, (list, tuple, dict, str, Obj)):
+                raise EvalRaised(type(e).__name__, f"{ast.unparse(n)[:60]}: {e}")
+            raise Unknown(f"subscript {ast.unparse(n)[:60]}: {e}")
+        except (Unknown, EvalRaised):
+            raise
         except Exception as e:
             raise Unknown(f"subscript {ast.unparse(n)[:60]}: {e}")
 
@@ -382,6 +398,9 @@ class Evaluator:
                 self.bind(st.target, self.ev(st.value, env), env)
                 continue
             if isinstance(st, ast.AugAssign) and isinstance(st.target, ast.Name):
+                if isinstance(env.get(st.target.id), list) and isinstance(st.op, ast.Add):
+                    env[st.target.id].extend(list(self.ev(st.value, env)))  # list.__iadd__ is in place: aliases see it
+                    continue
                 cur = self.ev(ast.BinOp(left=ast.Name(id=st.target.id, ctx=ast.Load()), op=st.op, right=st.value), env)
                 env[st.target.id] = cur
                 continue
